@@ -369,9 +369,9 @@ func TestVerif_C18_RacingWriters(t *testing.T) {
 					defer ww.Done()
 					var body []byte
 					if onUser {
-						body = []byte(fmt.Sprintf(`{"permissions":[%s"w%d"]}`, strings.Repeat(`"x",`, w), w))
+						body = []byte(fmt.Sprintf(`{"permissions":[%s"w%d"]}`, strings.Repeat(`"x",`, w+round*8), w))
 					} else {
-						body = []byte(fmt.Sprintf(`{"displayName":"r%dw%d%s"}`, round, w, strings.Repeat("y", w)))
+						body = []byte(fmt.Sprintf(`{"displayName":"r%dw%d%s"}`, round, w, strings.Repeat("y", w+round*8)))
 					}
 					<-start
 					r, err := rig.raw("PUT", path, map[string]string{"Authorization": auth, "Content-Type": "application/json", "If-Match": tag}, body)
@@ -410,7 +410,7 @@ func TestVerif_C18_RacingWriters(t *testing.T) {
 					if u["password"] != "pw" {
 						t.Fatalf("C17/C18: the user's password was lost in a racing update: %v", u)
 					}
-				} else if d["displayName"] != fmt.Sprintf("r%dw%d%s", round, w, strings.Repeat("y", w)) {
+				} else if d["displayName"] != fmt.Sprintf("r%dw%d%s", round, w, strings.Repeat("y", w+round*8)) {
 					t.Fatalf("C18: writer %d was acknowledged but the file holds %v", w, d["displayName"])
 				}
 			}
